@@ -90,7 +90,9 @@ PLANS['C03'] = dict(
     engine='specgraph', level='exploration',
     jobs=lambda tier: cfg_jobs(tier, (8, 600), (16, 2500), [_DEFAULT]) + cfg_jobs(tier, (2, 400), (4, 2000), [_STRICT, _LEGACY, _WARN, _TRACK]),
     minimums=lambda t: {'nodes_checked': 10000, 'consistent_nodes': 3000, 'inconsistent_nodes': 300,
-                        'oracle_agreements': 10000, 'legacy_fallback_orders': 100, 'c3_differs_from_dfs': 50},
+                        'oracle_agreements': 10000, 'legacy_fallback_orders': 100, 'c3_differs_from_dfs': 50,
+                        'warning_verdicts': 1000, 'tracking_verdicts': 100, 'synthesized_specifications_checked[super]': 500,
+                        'synthesized_specifications_checked[ClassProvides]': 1000, 'assignments_overtaken_by_a_nested_assignment': 50},
     rule='Random ordered DAGs (>= 20% inconsistent nodes in the non-strict configurations) of interfaces, plain and class '
          'declarations with rebasing histories, in configurations default/strict/legacy/warn/track, py and c; every node '
          'after every mutation: validity of __sro__/__iro__, equality with C3 (own merge and CPython type.mro() of a mirrored '
